@@ -5,6 +5,7 @@ package main
 
 import (
 	"fmt"
+	"os"
 	"go/token"
 	"go/types"
 
@@ -263,6 +264,124 @@ func (it *Interp) textModel(st *state, name string, c *ssa.CallCommon, args []Va
 			st.mem[o][fmt.Sprintf("[%d]", i)] = b
 		}
 		return TupleV{SliceV{Obj: o, Len: n}, NilV{}}, true
+	case "strings.Split":
+		// split a string whose separator positions are decidable (constant characters or digits)
+		s, ok1 := args[0].(StrV)
+		sep, ok2 := args[1].(StrV)
+		if !ok1 || !ok2 || !sep.Known || len(sep.S) != 1 {
+			if os.Getenv("NASVERIF_DEBUG") != "" {
+				fmt.Fprintf(os.Stderr, "[e2] strings.Split args %T %v / %T %v\n", args[0], args[0], args[1], args[1])
+			}
+			return nil, false
+		}
+		var chars []BV
+		if s.Known {
+			for i := 0; i < len(s.S); i++ {
+				chars = append(chars, it.constBV(uint64(s.S[i]), 8))
+			}
+		} else if s.Sym {
+			chars = s.Chars
+		} else {
+			return nil, false
+		}
+		var parts [][]BV
+		cur := []BV{}
+		for _, ch := range chars {
+			if v, isC := ch.IsConst(); isC && ch.Hex == nil {
+				if byte(v) == sep.S[0] {
+					parts = append(parts, cur)
+					cur = []BV{}
+					continue
+				}
+			} else if hi, okH := (BV{W: 4, B: ch.B[4:8]}).IsConst(); !(ch.Hex == nil && okH && byte(hi<<4) != sep.S[0]&0xf0) && ch.Hex == nil {
+				return nil, false // cannot tell whether this character is the separator
+			}
+			cur = append(cur, ch)
+		}
+		parts = append(parts, cur)
+		o := it.NewObj(fmt.Sprintf("split%d", it.nobj+1), false)
+		st.mem[o] = map[string]Value{}
+		for i, p := range parts {
+			allConst := true
+			var sb []byte
+			for _, ch := range p {
+				v, isC := ch.IsConst()
+				if !isC || ch.Hex != nil {
+					allConst = false
+					break
+				}
+				sb = append(sb, byte(v))
+			}
+			if allConst {
+				st.mem[o][fmt.Sprintf("[%d]", i)] = StrV{Known: true, S: string(sb)}
+			} else {
+				st.mem[o][fmt.Sprintf("[%d]", i)] = StrV{Sym: true, Chars: p}
+			}
+		}
+		return SliceV{Obj: o, Len: len(parts)}, true
+	case "strconv.ParseInt", "strconv.ParseUint":
+		// a string of decimal digit characters, base 10: the value by multiply-and-add; the error
+		// is nil iff every character is a digit and the value fits the bit size
+		s, ok := args[0].(StrV)
+		base, okB := it.concreteInt(args[1])
+		size, okS := it.concreteInt(args[2])
+		if !ok || !okB || !okS || base != 10 || !(s.Sym || s.Known) || size < 1 || size > 64 {
+			return nil, false
+		}
+		chars := s.Chars
+		if s.Known {
+			chars = nil
+			for i := 0; i < len(s.S); i++ {
+				chars = append(chars, it.constBV(uint64(s.S[i]), 8))
+			}
+		}
+		if len(chars) == 0 || len(chars) > 18 {
+			return nil, false
+		}
+		val := it.constBV(0, 64)
+		allDigits := it.T.one
+		for _, c := range chars {
+			if c.Hex != nil || c.HasTop() {
+				return nil, false
+			}
+			hi3 := it.T.And(it.T.And(it.T.Not(c.B[7]), it.T.Not(c.B[6])), it.T.And(c.B[5], c.B[4]))
+			le9 := it.T.Not(it.T.And(c.B[3], it.T.Or(c.B[2], c.B[1])))
+			allDigits = it.T.And(allDigits, it.T.And(hi3, le9))
+			// val = val*10 + digit
+			x8 := BV{W: 64, B: make([]*Node, 64)}
+			x2 := BV{W: 64, B: make([]*Node, 64)}
+			for k := 0; k < 64; k++ {
+				x8.B[k], x2.B[k] = it.T.zero, it.T.zero
+				if k >= 3 {
+					x8.B[k] = val.B[k-3]
+				}
+				if k >= 1 {
+					x2.B[k] = val.B[k-1]
+				}
+			}
+			dg := it.constBV(0, 64)
+			copy(dg.B[0:4], c.B[0:4])
+			val = it.add(it.add(x8, x2, it.T.zero), dg, it.T.zero)
+		}
+		max := uint64(1)<<uint(size) - 1
+		if name == "strconv.ParseInt" {
+			max = uint64(1)<<uint(size-1) - 1
+		}
+		if size == 64 && name == "strconv.ParseUint" {
+			max = ^uint64(0)
+		}
+		fits := it.T.Not(it.ult(it.constBV(max, 64), val))
+		okN := it.T.And(allDigits, fits)
+		// on a range error the functions return the maximum value; on a syntax error 0
+		res := BV{W: 64, B: make([]*Node, 64), Signed: name == "strconv.ParseInt"}
+		mx := it.constBV(max, 64)
+		for k := 0; k < 64; k++ {
+			res.B[k] = it.T.Mux(okN, val.B[k], it.T.And(allDigits, mx.B[k]))
+		}
+		if okN == it.T.one {
+			return TupleV{res, NilV{}}, true
+		}
+		return TupleV{res, ErrV{okN}}, true
 	case "strings.Join", "fmt.Sprintf", "strconv.FormatUint", "strconv.Itoa", "strconv.FormatInt":
 		return OpaqueV{"formatted text"}, true
 	case "strings.Index":
